@@ -7,6 +7,7 @@ pub mod modpow;
 pub mod mul;
 pub mod numth;
 pub mod text;
+pub mod transcript;
 
 use crate::rec::Rec;
 
@@ -24,6 +25,7 @@ pub fn run(name: &str, r: &mut Rec) -> bool {
         "sign" => numth::run_sign(r),
         "modpow" => modpow::run(r),
         "text" => text::run(r),
+        "transcript" => transcript::run(r),
         _ => return false,
     }
     true
